@@ -552,6 +552,32 @@ async fn workload(mut sim: Sim, o: Opts) -> Result<Value, String> {
     for h in handles {
         let _ = tokio::time::timeout(Duration::from_secs(1200), h).await;
     }
+    if o.mode == "abandon" && !o.faults {
+        // the caller gives up and hangs up in one go: the only word the serving side gets of the
+        // abandonment is the end of the connection - the handler is dropped all the same
+        for round in 0..2u64 {
+            let nonce = sim.nonce();
+            let mut req = Request::new(Bytes::from_static(b"bye")).with_route(format!("/hangup{nonce}"));
+            req.headers_mut().insert("delay-ms".into(), "30000".into());
+            req.headers_mut().insert("nonce".into(), nonce.to_string());
+            let to = sim.peer_id(2);
+            sim.run.obs(0, "obs.rpc_call", json!({
+                "nonce": nonce, "to": 2, "route": req.route(), "len": req.body().len(), "digest": sim::digest(req.body()),
+                "hdigest": sim::headers_digest(req.headers()), "nheaders": req.headers().len(),
+                "hsize": req_header_size(req.route(), req.headers()), "delay": 30000u64,
+            }));
+            let net = sim.net(0).clone();
+            let call = tokio::spawn(async move { net.rpc(to, req).await });
+            settle(&mut sim, 40 + round * 15).await;
+            sim.run.obs(-1, "obs.fault", json!({"redial": true}));
+            call.abort();
+            let _ = sim.net(0).disconnect(to);
+            sim.run.obs(0, "obs.rpc_abandon", json!({"nonce": nonce}));
+            settle(&mut sim, 400).await;
+            sim.connect(0, sim.addr(2), Some(to)).await.map_err(|e| format!("reconnect after hanging up failed: {e}"))?;
+            settle(&mut sim, 50).await;
+        }
+    }
     // afterwards the connection must still serve: fault-free, one fresh RPC each way
     sim.run.fabric.set_policy(Policy::default());
     sim.run.obs(-1, "obs.fault", json!({"what": "healed"}));
